@@ -117,9 +117,11 @@ def handleChain (j : Json) : R Json := do
   let genes ← listOf geneOfJson (← fld j "genes")
   let model := exceptJson ((chain genes).map fun rs =>
     jObj [("genes", jArr (rs.map fun r => jObj [("name", Json.str r.name), ("modules", modulesToJson r.modules)]))])
-  let impl ← listOf (fun g => listOf implModule g) (fldD j "impl_genes" (jArr []))
+  let impl ← listOf (fun g => do
+      return ((← strF g "name"), (← listOf implModule (← fld g "modules")))) (fldD j "impl_genes" (jArr []))
   return jObj [("model", model),
-               ("spec", jObj [("genes", jArr (impl.map fun ms => jArr (ms.map specOfModule)))])]
+               ("spec", jObj [("genes", jArr (impl.map fun g => jArr (g.2.map specOfModule))),
+                              ("line", toJson (Spec.chainLineOK genes (impl.map fun g => (g.1, g.2.map (·.1)))))])]
 
 def handleLabel (j : Json) : R Json := do
   let label ← strF j "label"
